@@ -252,12 +252,12 @@ int disasm_powerpc(
           snprintf(instruction, length, "%s v%d, v%d, v%d, v%d", instr, rd, ra, vc, rb);
           break;
         case OP_VD_VB_UIMM:
-          snprintf(instruction, length, "%s v%d, %d, v%d", instr, rd, ra, rb);
+          snprintf(instruction, length, "%s v%d, v%d, %d", instr, rd, rb, ra);
           break;
         case OP_VD_VB_SIMM:
           vsimm = ra;
           if ((ra & 0x10) != 0) { vsimm |= 0xf0; }
-          snprintf(instruction, length, "%s v%d, %d, v%d", instr, rd, vsimm, rb);
+          snprintf(instruction, length, "%s v%d, v%d, %d", instr, rd, rb, vsimm);
           break;
         case OP_VD_SIMM:
           vsimm = ra;
